@@ -77,7 +77,7 @@ def main():
         print('%-28s %s caught=%s kind=%s demo_fails=%s tests=%s' % (name, prop, res.get('caught'), res.get('replay_kind'),
                                                                      res.get('demo_fails_with_patch'), res.get('tests')))
     # the plain tree must be green again afterwards (also regenerates coq/gen from /repo)
-    for prop in sorted({r['property'] for r in summary}):
+    for prop in ([] if '--no-final' in sys.argv else sorted({r['property'] for r in summary})):
         rc, out = sh('cd %s && ./check %s --tier quick' % (ROOT, prop))
         print('unchanged tree: %s exit=%d' % (prop, rc))
 
